@@ -64,12 +64,92 @@ def _attrs_classes():
     return found
 
 
+_PLAIN_CLASSES = None
+
+
+def _plain_classes():
+    """Library classes that are not attrs classes (or define their own __init__) and whose __init__ has parameters
+    with default values: a mutable default argument object is shared by every call that leaves it out."""
+    global _PLAIN_CLASSES  # pylint: disable=global-statement
+    if _PLAIN_CLASSES is None:
+        import inspect
+        import sys
+        found = {}
+        for name in sorted(sys.modules):
+            if not name.startswith('cryptoparser.'):
+                continue
+            module = sys.modules[name]
+            for attr_name in sorted(vars(module)):
+                obj = vars(module)[attr_name]
+                if not (isinstance(obj, type) and obj.__module__ == name) or issubclass(obj, (BaseException, enum.Enum)):
+                    continue
+                init = obj.__dict__.get('__init__')
+                if init is None or not inspect.isfunction(init) or not init.__code__.co_filename.startswith(core.REPO_PKG_PREFIX):
+                    continue
+                try:
+                    params = list(inspect.signature(init).parameters.values())[1:]
+                except (TypeError, ValueError):
+                    continue
+                if any(p.default is not inspect.Parameter.empty for p in params):
+                    found['plain:' + core.class_path(obj)] = obj
+        _PLAIN_CLASSES = found
+    return _PLAIN_CLASSES
+
+
+def _exec_plain_defaults(doc, res):
+    import inspect
+    cls = _plain_classes()[doc['cls']]
+    name = cls.__name__
+    donor = _donor_for(cls)
+    params = list(inspect.signature(cls.__dict__['__init__']).parameters.values())[1:]
+    kwargs = {}
+    for param in params:
+        if param.default is not inspect.Parameter.empty or param.kind in (param.VAR_POSITIONAL, param.VAR_KEYWORD):
+            continue
+        for candidate in (param.name, '_' + param.name):
+            if donor is not None and hasattr(donor, candidate):
+                kwargs[param.name] = getattr(donor, candidate)
+                break
+        else:
+            res.sched_sig = ('defaults', name, 'no-donor')
+            res.stats['defaults.class_without_donor(uncovered)'] += 1
+            return
+    try:
+        first, second = cls(**kwargs), cls(**kwargs)
+    except Exception as exc:  # pylint: disable=broad-except
+        res.note(name, 'unbuildable', type(exc).__name__)
+        res.sched_sig = ('defaults', name, 'unbuildable')
+        res.stats['defaults.class_not_constructible'] += 1
+        return
+    given = {id(value) for value in kwargs.values()}
+    shared = []
+    for key in sorted(vars(first)):
+        a_value, b_value = vars(first).get(key), vars(second).get(key)
+        if id(a_value) in given:
+            continue            # the caller's own argument object, handed to both constructors by this check
+        if is_mutable(a_value) and a_value is b_value:
+            shared.append((key, type(a_value).__name__))
+        elif a_value is not None and b_value is not None and _shared_mutable(a_value, b_value):
+            shared.append((key, _shared_mutable(a_value, b_value)))
+    for key, what in shared:
+        res.violation((PROPERTY, 'shared-mutable-default', name, key.lstrip('_')),
+                      'objects created with default arguments do not share mutable state',
+                      'two %s instances built with the same required arguments and all defaults hold the very same '
+                      '%s object in attribute %s' % (name, what, key))
+    res.event(name, 'plain-defaults', len(shared))
+    res.sched_sig = ('defaults', name, 'plain', bool(shared))
+    res.nontrivial = True
+    res.stats['runs.defaults'] += 1
+    res.stats['probe.non_attrs_class_constructed_twice_with_defaults'] += 1
+
+
 def prepare(tier):  # pylint: disable=unused-argument
     corpus.class_paths()
     corpus.warm_variants()
     from simverif import workload
     workload.pools()
     _attrs_classes()
+    _plain_classes()
     from simverif.props import c12
     c12.classes()
     grow_hosts()
@@ -477,11 +557,28 @@ def _construct_default(cls, donor=None):
         if field.default is not attr.NOTHING:
             defaulted.append(field.name)
             continue
-        if donor is not None and hasattr(donor, field.name):
+        if donor is not None and getattr(donor, field.name, None) is not None:
+            kwargs[name] = getattr(donor, field.name)
+            continue
+        # no usable donor value: a member of the enumeration the validator names, if it names one
+        from simverif.props import c14
+        enum_class = c14._enum_of_validator(field.validator)  # pylint: disable=protected-access
+        if enum_class is not None:
+            kwargs[name] = list(enum_class)[0]
+        elif donor is not None and hasattr(donor, field.name):
             kwargs[name] = getattr(donor, field.name)
         else:
             raise LookupError('no value for required field %s' % field.name)
-    return cls(**kwargs), defaulted
+    try:
+        return cls(**kwargs), defaulted
+    except (TypeError, ValueError):
+        # a field whose declared default (None) its own validator refuses is required in practice
+        for field in fields:
+            if field.name in defaulted and field.default is None and donor is not None and \
+                    getattr(donor, field.name, None) is not None:
+                kwargs[field.name.lstrip('_')] = getattr(donor, field.name)
+                defaulted.remove(field.name)
+        return cls(**kwargs), defaulted
 
 
 def _donor_for(cls):
@@ -575,7 +672,7 @@ def generate(rng, index, tier, extra):  # pylint: disable=unused-argument
                 'entry': rng.choice(('parse_mutable', 'parse_mutable', 'parse_immutable', 'parse_exact_size')),
                 'tail': bytes(rng.getrandbits(8) for _ in range(rng.choice((0, 0, 3, 8)))).hex(), 'events': events}
     if roll < 0.9:
-        names = sorted(_attrs_classes())
+        names = sorted(_attrs_classes()) + sorted(_plain_classes())
         return {'kind': 'defaults', 'cls': rng.choice(names), 'twin': rng.random() < 0.3}
     # a caller edits a parsed / built message in place, then observes it
     sub = rng.random()
@@ -925,6 +1022,9 @@ def _exec_buffer(doc, res):  # pylint: disable=too-many-branches,too-many-statem
 
 
 def _exec_defaults(doc, res):  # pylint: disable=too-many-branches
+    if doc['cls'].startswith('plain:'):
+        _exec_plain_defaults(doc, res)
+        return
     cls = _attrs_classes()[doc['cls']]
     name = cls.__name__
     donor = _donor_for(cls)
@@ -975,6 +1075,14 @@ def _exec_defaults(doc, res):  # pylint: disable=too-many-branches
             res.violation((PROPERTY, 'shared-mutable-default', name, field),
                           'objects created with default arguments do not share mutable state',
                           'two instances hold the very same %s object in field %s' % (type(b_value).__name__, field))
+            continue
+        nested = _shared_mutable(a_value, b_value)
+        if nested:
+            # the default values are distinct objects but hold a mutable object in common further down
+            res.violation((PROPERTY, 'shared-mutable-default', name, field, 'nested'),
+                          'objects created with default arguments do not share mutable state',
+                          'the default values of field %s of two instances are different objects that both hold the '
+                          'same mutable %s object' % (field, nested))
             continue
         if field in volatile:
             continue
